@@ -45,6 +45,9 @@ pub struct SchedCfg {
     pub ns_per_step: u64,
     pub p_jump: f64,
     pub p_load_sched: f64,
+    /// scheduler steps after which an incarnation is declared non-terminating (0 = 3 million)
+    #[serde(default)]
+    pub step_budget: u64,
 }
 
 impl SchedCfg {
@@ -58,6 +61,7 @@ impl SchedCfg {
             ns_per_step: 0,
             p_jump: 0.0,
             p_load_sched: 0.0,
+            step_budget: 0,
         }
     }
 }
